@@ -89,12 +89,23 @@ def oracle(fn, m, z0, out):
     src = fn.split('_')[1][0]
     dst = fn.split('to')[-1] if 'to' in fn else ''
     dst = fn[len('vnaconv_') + 3:]
-    if any(x != x or abs(x) == float('inf') for x in out):
-        return 'skip'
-    big = max(abs(x) for x in out)
-    if big > 1e5:
-        return 'skip'       # near the singular set
     Ain = rel_matrix(src, m, z0)
+    if any(x != x or abs(x) == float('inf') for x in out) or max(abs(x) for x in out) > 1e5:
+        # non-finite or huge output belongs to the singular set of the conversion; away from it, it is a wrong answer.  Decided from
+        # the input alone: the states of the input relation, written in the independent variables of the output relation, are regular
+        if dst not in TYPES:
+            return 'skip'
+        with np.errstate(all='ignore'):
+            N0, s0 = nullspace(Ain, 2)
+            f0 = forms(z0)
+            blk = np.array([f0[nm] for nm in REL[dst][1]]) @ N0
+            sv0 = np.linalg.svd(blk, compute_uv=False)
+            reg = s0[0] / max(s0[1], 1e-300) < 1e4 and sv0[-1] > 1e-3 * sv0[0]
+        if reg:
+            return 'non-finite or huge output for an input away from the singular set of the conversion (condition %.1e of the independent variables of the output relation)' % (
+                sv0[0] / max(sv0[-1], 1e-300))
+        return 'skip'       # near the singular set
+    big = max(abs(x) for x in out)
     if dst in TYPES:
         N, s = nullspace(Ain, 2)
         Aout = rel_matrix(dst, out, z0)
